@@ -1,4 +1,5 @@
 import TunnoxModel.Proofs.C19Own
+import TunnoxModel.Proofs.C19Look
 /-!
 # C19 — a public domain routes only to its single rightful owner
 
@@ -11,7 +12,8 @@ lookup operations per client thread; hosts and names are arbitrary strings.
 `holds` (Spec/C19.lean) is the conjunction of five clauses.  Proved below for every input:
 `own`, `auth`, `final` (single owner, owner-only delete, final store).  The clauses `look` and `claim`
 are evaluated by the driver on every observation of the real code and of the model but are proved here
-only in their step-level form (`C19_lookup_*`, `C19_host_*`, `C19_name_free_after_delete`); see `C19_main_partial`.
+only in state-level form for every reachable state (`C19_routing_sound`, `C19_lookup_repo_stage`, `C19_host_key`);
+see `C19_main_partial` for what is missing.
 -/
 namespace Tunnox.C19
 open Gen
@@ -115,21 +117,9 @@ theorem C19_isActive_iff (now : Nat) (r : Rec) :
 
 /-- A registry / cloud-control mapping is routed only if it is active, not revoked and not expired. -/
 theorem C19_lookup_foreign_checked (now : Nat) (m : PM) (a : String) (b : Nat) (c : String) (d : Nat)
-    (h : pmCheck now m = .route a b c d) : pmRoutable now m = true ∧ a = m.ID ∧ b = m.client ∧ c = m.thost ∧ d = m.tport := by
-  unfold pmCheck at h
-  split at h
-  · cases h
-  · split at h
-    · cases h
-    · split at h
-      · cases h
-      · rename_i h1 h2 h3
-        simp only [routeOf, Res.route.injEq] at h
-        refine ⟨?_, h.1.symm, h.2.1.symm, h.2.2.1.symm, h.2.2.2.symm⟩
-        unfold pmRoutable
-        simp only [bne_iff_ne, ne_eq, Decidable.not_not] at h1
-        simp only [Bool.not_eq_true] at h2
-        simp [h1, h2, h3]
+    (h : pmCheck now m = .route a b c d) :
+    pmRoutable now m = true ∧ a = m.ID ∧ b = m.client ∧ c = m.thost ∧ d = m.tport :=
+  pmCheck_route h
 
 /-! ### one delete: only the owner, and the name is free afterwards -/
 
@@ -194,8 +184,9 @@ Full statement (checked by the driver on every case, not yet proved for all sche
 with ALREADY_EXISTS overlapped a possible holder of the name) and `holdsLook` (a routed lookup names client and
 target of a live mapping for the name the Host denotes; known-inactive / expired / deleted mappings never route;
 registry and cloud control answer only when no mapping of the repository certainly owns the name).  What is
-missing is the simulation for the `look`/`claim` monitor fields; their step-level content is
-`C19_lookup_repo_stage`, `C19_lookup_foreign_checked`, `C19_host_key`. -/
+missing is the simulation for the `look`/`claim` monitor fields (deadness at invocation, quiet status knowledge,
+precedence of a certain owner over registry/cloud, possible holders); their state-level content for every
+reachable state is `C19_routing_sound` with `C19_lookup_repo_stage` and `C19_host_key`. -/
 theorem C19_main_partial (i : Input) (hv : i.cf.variant = .repaired) :
     (holdsOwn i (model i) && holdsAuth i (model i) && holdsFinal i (model i)) = true := by
   rw [C19_single_owner i hv, C19_owner_only_delete i hv, C19_final_store i hv]; rfl
@@ -212,6 +203,21 @@ theorem C19_reachable_invariant (i : Input) (ts : List Nat) :
     | nil => intro c h; exact h
     | cons t ts ih => intro c h; exact ih _ (h.step t)
   exact key ts _ (Inv.init i)
+
+/-- **Routing soundness in every interleaving** (both variants).  After any schedule `ts`, if the next step of
+thread `t` makes its lookup of `host` route to `(pid, client, target)`, then either
+* `RepoSource`: `pid` is mapping `n` whose index claim (the atomic SetNX) was made for exactly the name
+  `extractDomain host` (which the Host denotes: `C19_host_key`), `client` is that claimant's client, the record
+  read is active and not expired, and the target is the created one or one written by an update of `n`; or
+* `ForeignSource`: a registry / cloud-control mapping registered under that name, active, not revoked, not expired.
+No other client's mapping and no inactive / expired mapping is ever routed. -/
+theorem C19_routing_sound (i : Input) (ts : List Nat) (t : Nat) (host pid th : String) (cl tp : Nat) (rest : List Op)
+    (hto : ((runSched i.cf (initCfg i) ts).1.th t).todo = .look host :: rest)
+    (hr : (stepLookup i.cf (runSched i.cf (initCfg i) ts).1.st host ((runSched i.cf (initCfg i) ts).1.th t).pc).2.2
+            = some (.route pid cl th tp)) :
+    RepoSource i.cf (updTargets (allOps i)) (runSched i.cf (initCfg i) ts).1.st host pid cl th tp ∨
+      ForeignSource i.cf (i.reg ++ i.cf.cloud) host pid cl th tp :=
+  (C19_reachable_invariant i ts).lookup_route hto hr
 
 /-! ### the tree as found: the witness -/
 
